@@ -29,6 +29,12 @@ def _const_seq(e: ast.expr, consts: dict[str, ast.expr]) -> list[ast.expr] | Non
         e = consts[e.id]
     elif isinstance(e, ast.Attribute) and isinstance(e.value, ast.Name) and ('.' + e.attr) in consts and (e.value.id in ('self', 'cls') or e.value.id[:1].isupper()):
         e = consts['.' + e.attr]          # class-level constant table read through self / cls / the class
+    if isinstance(e, ast.Call) and isinstance(e.func, ast.Attribute) and e.func.attr == 'items' and not e.args and not e.keywords:
+        # the items of a constant dict table, in insertion order
+        d = e.func.value
+        tab = _DICTS.get(d.id) if isinstance(d, ast.Name) else (_DICTS.get(d.attr) if isinstance(d, ast.Attribute) and isinstance(d.value, ast.Name) and d.value.id in ('self', 'cls') else None)
+        if tab is not None and 0 < len(tab.keys) <= MAX_UNROLL:
+            return [ast.copy_location(ast.Tuple(elts=[copy.deepcopy(k), copy.deepcopy(v)], ctx=ast.Load()), e) for k, v in zip(tab.keys, tab.values)]
     if isinstance(e, (ast.Tuple, ast.List)) and 0 < len(e.elts) <= MAX_UNROLL:
         if all(_simple(x) or (isinstance(x, ast.Tuple) and all(_simple(y) for y in x.elts)) for x in e.elts):
             return list(e.elts)
@@ -285,6 +291,45 @@ class _Fold(ast.NodeTransformer):
                 return ast.copy_location(copy.deepcopy(fl[n.attr]), n)
         return n
 
+    def visit_UnaryOp(self, n: ast.UnaryOp) -> ast.AST:  # noqa: N802
+        self.generic_visit(n)
+        if isinstance(n.op, ast.Not) and isinstance(n.operand, ast.Constant) and isinstance(n.operand.value, bool):
+            return ast.copy_location(ast.Constant(value=not n.operand.value), n)
+        return n
+
+    def visit_BoolOp(self, n: ast.BoolOp) -> ast.AST:  # noqa: N802
+        self.generic_visit(n)
+        # constant operands of and / or (a helper parameter replaced by a constant argument)
+        vals = []
+        for k_, v in enumerate(n.values):
+            if isinstance(v, ast.Constant) and isinstance(v.value, bool) and k_ == len(n.values) - 1 and vals:
+                vals.append(v)          # `x and True` has the value True, not x: the last operand stays
+                break
+            if isinstance(v, ast.Constant) and isinstance(v.value, bool):
+                if isinstance(n.op, ast.And):
+                    if v.value:
+                        continue
+                    if not vals:
+                        return ast.copy_location(ast.Constant(value=False), n)
+                    vals.append(v)
+                    break
+                if not v.value:
+                    continue
+                if not vals:
+                    return ast.copy_location(ast.Constant(value=True), n)
+                vals.append(v)
+                break
+            vals.append(v)
+        if not vals:
+            return ast.copy_location(ast.Constant(value=isinstance(n.op, ast.And)), n)
+        if len(vals) == 1 and not isinstance(vals[0], ast.Constant):
+            # `True and x` is x only in a boolean context; keep the BoolOp unless nothing was dropped
+            if len(n.values) == 1:
+                return vals[0]
+        if len(vals) != len(n.values) and len(vals) >= 2:
+            n.values = vals
+        return n
+
     def visit_IfExp(self, n: ast.IfExp) -> ast.AST:  # noqa: N802
         self.generic_visit(n)
         if isinstance(n.test, ast.Constant) and isinstance(n.test.value, bool):
@@ -305,6 +350,7 @@ class _Fold(ast.NodeTransformer):
 
 
 _TABLES: dict[str, ast.Dict] = {}
+_DICTS: dict[str, ast.Dict] = {}       # dict literals bound once whose keys and values are plain (iteration over .items())
 
 
 def set_tables(trees: list[ast.Module]) -> None:
@@ -337,6 +383,7 @@ def set_tables(trees: list[ast.Module]) -> None:
             _NT.pop(nm, None)
     count: dict[str, int] = {}
     val: dict[str, ast.Dict] = {}
+    dval: dict[str, ast.Dict] = {}
     for tree in trees:
         bodies = [tree.body] + [c.body for c in ast.walk(tree) if isinstance(c, ast.ClassDef)]
         for body in bodies:
@@ -347,9 +394,17 @@ def set_tables(trees: list[ast.Module]) -> None:
                     count[tg.id] = count.get(tg.id, 0) + 1
                     if isinstance(v, ast.Dict) and v.keys and all(isinstance(k, ast.Constant) for k in v.keys):
                         val[tg.id] = v
+                    if isinstance(v, ast.Dict) and v.keys and all(k is not None and _simple(k) for k in v.keys) and all(_simple(x) for x in v.values):
+                        dval[tg.id] = v
     for k, v in val.items():
         if count.get(k) == 1:
             _TABLES[k] = v
+    _DICTS.clear()
+    stored_attrs = {n_.attr for t_ in trees for n_ in ast.walk(t_) if isinstance(n_, ast.Attribute) and isinstance(n_.ctx, (ast.Store, ast.Del))}
+    sub_stores = {n_.value.id for t_ in trees for n_ in ast.walk(t_) if isinstance(n_, ast.Subscript) and isinstance(n_.ctx, (ast.Store, ast.Del)) and isinstance(n_.value, ast.Name)}
+    for k, v in dval.items():
+        if count.get(k) == 1 and k not in stored_attrs and k not in sub_stores:
+            _DICTS[k] = v
 
 
 def _table_value(tab: ast.Dict, key: object) -> ast.expr | None:
@@ -805,6 +860,63 @@ def _loop_over_branch_lists(fn: ast.AST, keep: set[str] | None = None) -> bool:
     return done
 
 
+def _scalarise_records(fn: ast.AST, keep: set[str] | None = None) -> bool:
+    """N26: a new local that is only ever bound to constructions of a plain NamedTuple class and only ever read through
+    its fields is one local per field."""
+    if not isinstance(fn, (ast.FunctionDef, ast.AsyncFunctionDef)) or not _NT:
+        return False
+    own = list(_own_nodes(fn))
+    stores: dict[str, list[ast.Assign]] = {}
+    bad: set[str] = set()
+    for n in own:
+        if isinstance(n, ast.Assign) and len(n.targets) == 1 and isinstance(n.targets[0], ast.Name):
+            if _nt_fields(n.value) is not None:
+                stores.setdefault(n.targets[0].id, []).append(n)
+            else:
+                bad.add(n.targets[0].id)
+    cands = {v for v in stores if v not in bad and v not in (keep or ())}
+    if not cands:
+        return False
+    parent: dict[int, ast.AST] = {}
+    for n in ast.walk(fn):
+        for c in ast.iter_child_nodes(n):
+            parent[id(c)] = n
+    for n in ast.walk(fn):
+        if isinstance(n, ast.Name) and n.id in cands:
+            p_ = parent.get(id(n))
+            if isinstance(n.ctx, ast.Store):
+                if not (isinstance(p_, ast.Assign) and any(p_ is s_ for s_ in stores[n.id])):
+                    cands.discard(n.id)
+            elif not (isinstance(p_, ast.Attribute) and p_.value is n and isinstance(p_.ctx, ast.Load)):
+                cands.discard(n.id)
+    cands = {v for v in cands if len({s_.value.func.id for s_ in stores[v]}) == 1}
+    if not cands:
+        return False
+    for _o, blk in list(_blocks(fn)):
+        k = 0
+        while k < len(blk):
+            st = blk[k]
+            if isinstance(st, ast.Assign) and len(st.targets) == 1 and isinstance(st.targets[0], ast.Name) and st.targets[0].id in cands and _nt_fields(st.value) is not None:
+                fl = _nt_fields(st.value)
+                v = st.targets[0].id
+                parts = [ast.copy_location(ast.Assign(targets=[ast.Name(id=f'{v}__{f_}', ctx=ast.Store())], value=copy.deepcopy(a_), lineno=st.lineno), st) for f_, a_ in fl.items()]
+                for x in parts:
+                    ast.fix_missing_locations(x)
+                blk[k:k + 1] = parts
+                k += len(parts)
+                continue
+            k += 1
+
+    class _R(ast.NodeTransformer):
+        def visit_Attribute(self, n: ast.Attribute) -> ast.AST:  # noqa: N802
+            self.generic_visit(n)
+            if isinstance(n.value, ast.Name) and n.value.id in cands and isinstance(n.ctx, ast.Load):
+                return ast.copy_location(ast.Name(id=f'{n.value.id}__{n.attr}', ctx=ast.Load()), n)
+            return n
+    _R().visit(fn)
+    return True
+
+
 def _default_rebind(fn: ast.AST, keep: set[str] | None = None) -> bool:
     """N25: `v = a; if v is None: v = b` with `a` a plain name / attribute and v a new local is `v = a if a is not None else b`
     (the default-value idiom written as a rebinding)."""
@@ -900,6 +1012,7 @@ def _fold(fn: ast.AST, keep: set[str] | None = None) -> None:
     _loop_over_branch_lists(fn, keep)
     _split_tuple_assigns(fn)
     if isinstance(fn, (ast.FunctionDef, ast.AsyncFunctionDef)):
+        _scalarise_records(fn, keep)
         _default_rebind(fn, keep)
         if _split_versions(fn, keep):
             fn._kfv_resplit = True  # type: ignore[attr-defined]
